@@ -174,6 +174,7 @@ def verify(h, header, records, level='full'):
         return ('times', None, {'raised': repr(e)})
     if level == 'full' and len(times) != n:
         return ('nfields', None, {'expected_len_times': n, 'observed': len(times)})
+    kept = []
     for i in range(n):
         if i >= len(times) or not isinstance(times[i], float) or struct.pack('<d', times[i]) != records[i][0]:
             return ('record', i, {'via': 'times', 'expected': records[i][0].hex(), 'observed': repr(times[i]) if i < len(times) else 'missing'})
@@ -190,6 +191,13 @@ def verify(h, header, records, level='full'):
             if bad:
                 bad['via'] = f'readField({idx})'
                 return ('record', i, bad)
+            kept.append((i, idx, got))
+    # what a read returned stays what it was: the caller may hold several fields of one handle at a time
+    for i, idx, got in kept:
+        bad = _rec_check(shape, dtype, got, records[i])
+        if bad:
+            bad['via'] = f'readField({idx}), looked at again after the later reads through the same handle'
+            return ('record', i, bad)
     if level == 'full':
         for idx in (n, -n - 1):
             for name in ('readField', 'time'):
